@@ -848,5 +848,5 @@ FIELD_TYPES = {
     "CompiledFunction.free_vars": "list", "CompiledFunction.cell_vars": "list",
     "Compiler.bytecode": "list", "Compiler.source_map": "dict", "Compiler.constants": "list", "Compiler.locals": "list",
     "JSTypedArray._data": "list", "JSFunction.params": "list", "JSFunction._properties": "dict", "JSObject._key_order": "dict?",
-    "ForInIterator.keys": "list", "ForOfIterator.values": "list", "Context._globals": "dict",
+    "ForInIterator.keys": "list", "Context._globals": "dict",      # (ForOfIterator.values is an array or a list: the code tests it)
 }
